@@ -441,4 +441,44 @@ Plan generate_rc(uint64_t index) {
     return pl;
 }
 
+// ---------------------------------------------------------------- C11x
+// Plans for the mini client (detail::autoconnect_stream under one reader and one serialised writer): the fault and
+// network part of a C11-focused plan, QoS 0 writes only, and cancel() followed in the same turn by async_run() -
+// on the SAME stream object, which mqtt_client itself never does.
+Plan generate_c11x(uint64_t seed) {
+    Plan p = generate(seed, "C11");
+    p.knobs.focus = "C11x";
+    p.knobs.client.use_authenticator = false;
+    p.knobs.client.will.reset();
+    p.knobs.broker.auth_rounds = 0;
+    auto r = sim::Rng::keyed(seed, "c11x", {});
+    std::vector<Step> out;
+    int extra = 900000;
+    for (auto& st : p.steps) {
+        switch (st.kind) {
+        case SK::Subscribe: case SK::Unsubscribe: case SK::Receive: case SK::CancelOp: case SK::ReAuth: case SK::PublishBurst:
+        case SK::BrokerPublish: case SK::BrokerBurst: case SK::FSessionPresent: case SK::FPingSilent: case SK::FHostileWindow:
+            continue;
+        case SK::Publish: st.a = 0; st.b = 0; st.c = 0; st.d = 0; st.props.clear(); out.push_back(st); break;
+        case SK::Disconnect: st.kind = SK::CancelClient; st.props.clear(); [[fallthrough]];
+        case SK::CancelClient:
+            out.push_back(st);
+            if (r.chance(0.7)) { Step run; run.id = extra++; run.kind = SK::Run; run.delay = r.chance(0.7) ? 0 : (ns_t)r.range(0, 50 * sim::MS); out.push_back(run); }
+            break;
+        default: out.push_back(st);
+        }
+    }
+    // some pressure of its own: a trigger (write) right before a cancel so that a lock waiter exists
+    if (r.chance(0.6)) {
+        Step pub; pub.id = extra++; pub.kind = SK::Publish; pub.s1 = "t/x" + std::to_string(pub.id); pub.s2 = std::to_string(pub.id) + ":"; pub.delay = (ns_t)r.range(0, 2 * sim::SEC);
+        Step cc; cc.id = extra++; cc.kind = SK::CancelClient; cc.delay = (ns_t)r.pick<ns_t>({0, 100 * sim::US, 1 * sim::MS, 20 * sim::MS, 300 * sim::MS});
+        Step run; run.id = extra++; run.kind = SK::Run; run.delay = 0;
+        Step pub2 = pub; pub2.id = extra++; pub2.s1 = "t/y" + std::to_string(pub2.id); pub2.s2 = std::to_string(pub2.id) + ":"; pub2.delay = (ns_t)r.range(0, 100 * sim::MS);
+        size_t at = out.empty() ? 0 : 1 + r.below(out.size());
+        out.insert(out.begin() + std::min(at, out.size()), {pub, cc, run, pub2});
+    }
+    p.steps = std::move(out);
+    return p;
+}
+
 } // namespace app
